@@ -7,6 +7,9 @@
       digests must be identical.  For the I/O engines this is at the same
       time a check that results do not depend on the hash seed (the digests
       are order-canonical).
+  vcheck --selftest refgr
+      the independent GR reference against closed forms (Kasner, FLRW,
+      de Sitter, Schwarzschild)
   vcheck --selftest witnesses
       every witness of a 'fixed' known finding must NOT reproduce on the
       current tree; every witness of a 'known' finding must reproduce.
@@ -107,6 +110,11 @@ def main(argv):
         return determinism(rest or ALL, n)
     if mode == 'witnesses':
         return witnesses()
+    if mode == 'refgr':
+        import subprocess
+        return subprocess.run(
+            [runner.PY, os.path.join(runner.VERIF, 'selftest',
+                                     'refgr_closed_forms.py')]).returncode
     print(__doc__)
     return 2
 
